@@ -132,16 +132,27 @@ func openPlace(backend string, shadow bool) (*place, error) {
 			return nil, err
 		}
 		reg := runtime.NewRegistry()
-		if err := reg.InjectAsDatabase(p.dbName); err != nil {
-			return nil, err
-		}
 		p.ns = "r/"
 		p.reg = &regProvider{recs: map[string]*record.Wrapper{}}
+		// both orders occur in real use: modules/subsystems registers its provider on the default registry in an init
+		// function, before the runtime module injects the registry as a database
+		early := dbCounter.Load()%2 == 0
+		if !early {
+			if err := reg.InjectAsDatabase(p.dbName); err != nil {
+				return nil, err
+			}
+		}
 		push, err := reg.Register(p.ns, p.reg)
 		if err != nil {
 			return nil, err
 		}
 		p.reg.push = push
+		if early {
+			stats.Class("registry_provider_registered_before_injection")
+			if err := reg.InjectAsDatabase(p.dbName); err != nil {
+				return nil, err
+			}
+		}
 	case beConfig:
 		// one "config" database per process: a fresh key prefix per case
 		p.shadow = false
